@@ -37,6 +37,7 @@ class Realm:
         self.name = name          # 'example.com' | '*' | '/regex/'
         self.msg = None
         self.accresp = False
+        self.acclog = False
         self.srv = []
         self.acc = []
 
@@ -128,6 +129,8 @@ class Cfg:
                 l.append('  replyMessage "%s"' % r.msg.decode('latin-1'))
             if r.accresp:
                 l.append('  accountingResponse on')
+            if r.acclog:
+                l.append('  accountingLog on')
             l.append('}')
         if self.opts_after:
             l += opts
@@ -178,6 +181,8 @@ def random_cfg(rng, rich=True):
         c = Client(i, names[i])
         c.type = rng.choice([T_UDP, T_UDP, T_TCP])
         c.secret = rbytes(rng, rng.choice([1, 7, 16, 17, 64, 65, 100])) if rng.random() < 0.5 else c.secret
+        if rng.random() < 0.12:
+            c.secret = b'Xy\x00' + rbytes(rng, 6)        # an escaped NUL octet is a legal part of a secret
         c.dupint = rng.choice([None, None, 0, 1, 2, 10, 255])
         c.addttl = rng.choice([0, 0, 0, 3, 255])
         if cfg.rewrites and rng.random() < 0.4:
@@ -185,7 +190,8 @@ def random_cfg(rng, rich=True):
         if cfg.rewrites and rng.random() < 0.4:
             c.rwout = rng.choice(cfg.rewrites)
         if rng.random() < 0.3:
-            c.rwuser = rng.choice([(r'^(.*)@local$', r'\1@example.com'), (r'^([^@]*)$', r'\1@example.com'), (r'^(.*)@(.*)$', r'\1@\2'), (r'@b\.', '@')])
+            c.rwuser = rng.choice([(r'^(.*)@local$', r'\1@example.com'), (r'^([^@]*)$', r'\1@example.com'), (r'^(.*)@(.*)$', r'\1@\2'), (r'@b\.', '@'),
+                                   (r'^(.*)@example\.com$', r'\1@example.com'), (r'^(.*)@other\.org$', r'\1@other.org')])
         c.reqma = rng.random() < 0.2
         c.reqmap = rng.random() < 0.2
         cfg.clients.append(c)
@@ -194,6 +200,8 @@ def random_cfg(rng, rich=True):
         s = Server(i, snames[i])
         s.type = rng.choice([T_UDP, T_UDP, T_TCP])
         s.secret = rbytes(rng, rng.choice([1, 7, 16, 17, 64, 65, 100])) if rng.random() < 0.5 else s.secret
+        if rng.random() < 0.12:
+            s.secret = b'Xy\x00' + rbytes(rng, 6)
         s.statsrv = rng.choice([0, 0, 1, 2, 3])
         if s.type == T_UDP:
             s.retryint = rng.choice([None, 1, 2, 5, 60])
@@ -214,6 +222,7 @@ def random_cfg(rng, rich=True):
         r.srv = rng.sample(range(ns), rng.randrange(0, ns + 1))
         r.acc = rng.sample(range(ns), rng.randrange(0, ns + 1)) if rng.random() < 0.5 else []
         r.msg = rng.choice([None, b'no-route', b'x' * 253]) if rng.random() < 0.6 else None
+        r.acclog = rng.random() < 0.4
         r.accresp = rng.random() < 0.5
         cfg.realms.append(r)
     rng.shuffle(cfg.realms)
@@ -368,7 +377,7 @@ def history(rng, cfg, nops=14):
             s = rng.randrange(ns)
             ident = rng.choice([0, 1, 1, 2, 3, 255, rng.randrange(256)])
             code = rng.choice([2, 2, 3, 11, 5, 5, 1, 12])
-            flags = rng.choice(['-', '-', '-', '-', 'badauth', 'badma', 'wrongsecret'])
+            flags = rng.choice(['-', '-', '-', '-', 'badauth', 'badma', 'wrongsecret', 'prefixsecret'])
             ops.append('op sreply %d %d %d %s %d %s %s' % (s, ident, now, rnd, code, flags, ' '.join(reply_attrs(rng, cfg, s))))
         elif k < 0.95:
             ops.append('op drain %d' % rng.randrange(nc))
@@ -443,7 +452,10 @@ def routable_name(rng, cfg, acct=False):
         if lst and not r.name.startswith('/') and r.name != '*':
             names.append(r.name)
     if names:
-        return ('%s@%s' % (rng.choice(['bob', 'alice', 'x']), rng.choice(names))).encode()
+        nm = rng.choice(names)
+        if rng.random() < 0.25:
+            nm = rng.choice([nm.upper(), nm.capitalize(), nm[:1].upper() + nm[1:]])
+        return ('%s@%s' % (rng.choice(['bob', 'alice', 'x']), nm)).encode()
     return b'bob@example.com'
 
 def clean_request(rng, cfg, c, code=1, ident=None, auth=None, uname=None, pwdlen=None, chap=False, extra=None, ma=True):
@@ -492,7 +504,10 @@ def exchange_history(rng, cfg, n=4):
                 # MS-MPPE keys: separate attributes or both in one
                 k1 = rbytes(rng, 2 + 16 * rng.choice([1, 2, 3]))
                 k2 = rbytes(rng, 2 + 16 * rng.choice([1, 2]))
-                if rng.random() < 0.5:
+                if rng.random() < 0.25:
+                    k3 = rbytes(rng, 2 + 16)
+                    attrs.append('26:' + hx(radius.vsa(311, rng.choice([[(16, k1), (16, k2), (16, k3)], [(17, k1), (16, k2), (17, k3), (12, b'ab'), (17, k2)], [(16, k3), (17, k3), (17, k1), (17, k2), (16, k1)]]))))
+                elif rng.random() < 0.5:
                     attrs.append('26:' + hx(radius.vsa(311, [(16, k1), (17, k2)] if rng.random() < 0.5 else [(17, k2), (12, b'ab'), (16, k1)])))
                 else:
                     attrs.append('26:' + hx(radius.vsa(311, [(16, k1)])))
@@ -505,7 +520,7 @@ def exchange_history(rng, cfg, n=4):
             if rng.random() < 0.3:
                 attrs.append('18:' + hx(b'welcome'))
             attrs += ['%d:%s' % (t, hx(v)) for t, v in rwgen.random_attrs(rng, cfg.servers[s].rwin, maxn=2)]
-            flags = rng.choice(['-'] * 6 + ['badauth', 'badma', 'wrongsecret'])
+            flags = rng.choice(['-'] * 6 + ['badauth', 'badma', 'wrongsecret', 'prefixsecret'])
             tgt = (s, i)
             if rng.random() < 0.08:
                 tgt = (s, (i + 1) % 256)
